@@ -214,7 +214,14 @@ class Session:
     def set_client_and_server_ports(self, packet: Packet, server_ports):
         self.ipv6 = packet.ipv6_packet
 
-        if packet.sport in server_ports:
+        from_server = packet.sport in server_ports
+        if from_server and packet.dport in server_ports:
+            # both ports are configured server ports (an ephemeral client port may equal one of them, e.g. 44330):
+            # the first segment seen of a connection comes from the client unless it carries a ServerHello
+            data = packet.tls_data
+            from_server = len(data) > 5 and data[0] == 0x16 and data[5] == 0x02
+
+        if from_server:
             self.server_ip = packet.ip_src
             self.server_port = packet.sport
             self.server_mac_addr = packet.ethernet_src
